@@ -14,7 +14,8 @@ EXPLANATION = (
     "spec's allowed class; (R3) GTF: the bytes the writer escapes with a backslash equal the bytes the reader accepts after "
     "a backslash, and values are always quoted; (R4) the owned GFF record is built from the lazy accessors (one path)."
     " (R5) append-buffer discipline of the GFF/GTF line readers incl. the blank-line skip loop."
-    " (R6) copy before consume for the BED field scanner.")
+    " (R6) copy before consume for the BED field scanner."
+    " (R7) every BED read_record_N resets the line buffer and the extra-column bounds of the reused destination on all success paths (field-path reset rule, interprocedural through helpers that are handed a parent object).")
 ASSUMPTIONS = ["percent-encoding crate semantics", "reader delimiter constants are the named DELIMITER/SEPARATOR consts (floor-checked)"]
 NOT_DECIDED = ["equality of arbitrary UTF-8 values; BED optional-column values; directive round trip"]
 
@@ -172,6 +173,14 @@ def run(ctx):
                           "%s consumes window bytes on a path that does not append them to the destination although other paths do: a field that "
                           "continues in the next fill_buf window loses everything before the last refill" % f7.root, f7.loc(s7["bad"]))
     ctx.floor("C18.R6", "copying fill_buf scanners", n7, 1)
+
+    ctx.rule("C18.R7", "A3 reused record: every BED read_record_N resets the line buffer and the extra-column bounds of the destination on all success "
+                       "paths (a line without extra columns must not keep the previous record's)")
+    for n_ in (3, 4, 5, 6):
+        for owner_path, what in (([("noodles_bed::record::Record", "0"), ("noodles_bed::record::fields::Fields", "buf")], "the line buffer"),
+                                 ([("noodles_bed::record::Record", "0"), ("noodles_bed::record::fields::Fields", "bounds"),
+                                   ("noodles_bed::record::fields::bounds::Bounds", "other_fields_ends")], "the extra-column bounds")):
+            a10.field_reset_rule(ctx, "C18.R7", "noodles_bed::io::reader::record::read_record_%d" % n_, 2, owner_path, what)
 
     ctx.rule("C18.R4", "owned GFF record is built from the lazy accessors (shared path)")
     fc = ctx.anchor("C18.R4", "noodles_gff::feature::record_buf::convert::<impl noodles_gff::feature::record_buf::RecordBuf>::try_from_feature_record")
